@@ -139,6 +139,10 @@ T = {
              "unsigned __int128 operand with a bit set in the upper 64 bits, evaluated at run time (constant evaluation stays correct, so static_assert tests cannot see it)", ["C18"]),
  "M-C19-4": ("C19", "sqrt(scaled_integer) result type drops the operand's radix (scaled_integer/sqrt.h)",
              "radix other than 2 with a non-zero even exponent", ["C19"]),
+ "M-C14-4": ("C14", "descale: the two sign-specific room tests replaced by one (n > limit || n < -limit) (charconv/descale.h)",
+             "unsigned significand type (reps of 64 or more unsigned digits): -limit wraps, the test is always true, the significand is never scaled up: 1.5 prints as 1; a uint64 rep with a positive exponent loops forever", ["C14", "C13"]),
+ "M-C16-4": ("C16", "reduce() skips the gcd when the numerator is zero (fraction/reduce.h)",
+             "numerator 0 and |denominator| >= 2: reduce(0/5) stays 0/5, canonical(0/-5) is 0/5, equal fractions hash differently", ["C16"]),
 }
 
 
@@ -180,6 +184,7 @@ HIST = {
  "M-C15-4": "missed at first: facts on digits_v<constant<V>> / make_elastic_integer / make_elastic_scaled_integer for unsigned, long and negative arguments added",
  "M-C18-4": "missed at first: the 128-bit generic definitions are loops LLVM does not bring to intrinsic form, so no equivalence is claimed for them; a two-word dependence rule (both halves of a 128-bit operand are live in every utility's optimised kernel) now reports the truncating fast path",
  "M-C19-4": "missed at first: radix facts for the result of sqrt(scaled_integer) added",
+ "M-C14-4": "missed at first: rule R8 added (no room test of descale is a constant function)",
 }
 
 
